@@ -24,6 +24,22 @@ BUDGET = {"quick": 480, "thorough": 900}
 CH = [2, 26, 80]
 
 
+def name_value(n):
+    """what is assigned / encoded: str stays str, {"hex": ..} is a bytes name"""
+    return bytes.fromhex(n["hex"]) if isinstance(n, dict) else n
+
+
+def name_expected(n):
+    """what the receiver must report: text when the bytes are valid UTF-8, the bytes otherwise"""
+    v = name_value(n)
+    if isinstance(v, bytes):
+        try:
+            return v.decode()
+        except UnicodeError:
+            return v
+    return v
+
+
 def gen_cases(ctx):
     rng = ctx.sub_rng("c19")
     n = 3000 if ctx.tier == "quick" else 120000
@@ -31,7 +47,11 @@ def gen_cases(ctx):
         kind = ["air", "ref", "ref", "adversarial", "random", "corrupt"][i % 6]
         svc = rng.choice(["battery", "temperature", "url", "raw", "none", "two"])
         yield {"kind": kind, "svc": svc, "chan": i % 3,
-               "name": rng.choice([None, None, "n", "nRF24", "abcdefgh"]),
+               # str names, one-character names, byte names that are not valid UTF-8 (kept as bytes
+               # by the receiver), UTF-8 multi-byte names; short-name (0x08) and complete-name (0x09) types
+               "name": rng.choice([None, None, "n", "nRF24", "abcdefgh", {"hex": "80"}, {"hex": "6e52ff34"},
+                                   {"hex": "c3a9c3a8"}, {"hex": "41c3"}, "\u00e9t\u00e9"]),
+               "name_type": rng.choice([8, 8, 9]),
                "pa": rng.random() < 0.35, "pa_level": rng.choice([-18, -12, -6, 0]),
                "batt": rng.choice([0, 1, 100, 255, rng.randrange(256)]),
                "temp": rng.choice([0, 29, 28, -1, -525, 3210, -30000, 30000, 1, 99, 101,
@@ -103,8 +123,8 @@ def run_case(ctx, case):
             tx.mac = mac
             nq = case["queue"]
             for j in range(nq):
-                name = case["name"]
-                tx.name = name
+                name = name_expected(case["name"])
+                tx.name = name_value(case["name"])
                 tx.pa_level = case["pa_level"]
                 try:
                     tx.show_pa_level = case["pa"]
@@ -124,7 +144,8 @@ def run_case(ctx, case):
                 if case["pa"]:
                     ads.append((0x0A, bytes([case["pa_level"] & 0xFF])))
                 if case["name"]:
-                    ads.append((0x08, case["name"].encode()))
+                    nv = name_value(case["name"])
+                    ads.append((case.get("name_type", 8), nv.encode() if isinstance(nv, str) else nv))
                 sads, descr = build_ref_services(case, rng, j)
                 used = sum(2 + len(d) for _, d in ads)
                 sads2, descr2 = [], []
@@ -135,7 +156,7 @@ def run_case(ctx, case):
                         used += 2 + len(a[1])
                 pl = ble_ref.encode(mac, ads + sads2, chidx, pad=bytes(rng.getrandbits(8) for _ in range(32)))
                 rr.inject_rx(0, pl)
-                expected.append((mac, case["name"], case["pa_level"] if case["pa"] else None, descr2))
+                expected.append((mac, name_expected(case["name"]), case["pa_level"] if case["pa"] else None, descr2))
         elif kind == "adversarial":
             area = adversarial_area(rng)
             lo = rng.choice([None, None, None, 0, 3, 5, 28, 30, 31, 63, "rfu40", "rfu80", "rfuC0"])
@@ -228,7 +249,7 @@ def run_case(ctx, case):
             return
         ctx.clause("read_order")
         for q, (emac, ename, epa, edescr) in zip(got, expected):
-            qname = q.name if isinstance(q.name, (str, type(None))) else bytes(q.name).decode(errors="replace")
+            qname = q.name if isinstance(q.name, (str, type(None))) else bytes(q.name)
             if bytes(q.mac) != emac or qname != ename or q.pa_level != epa:
                 ctx.violation("element-header-fields", "queued element mac %s name %r pa %r, advertised "
                               "mac %s name %r pa %r" % (bytes(q.mac).hex(), q.name, q.pa_level, emac.hex(), ename, epa), case)
@@ -236,7 +257,7 @@ def run_case(ctx, case):
             gd = [x for x in describe(q) if not (x[0] == "raw" and x[1] == b"\x02\x01\x05")]
             if not compare_services(ctx, case, gd, edescr):
                 return
-        ctx.nontrivial((kind, case["svc"], case["name"], case["pa"], case["chan"], len(expected)))
+        ctx.nontrivial((kind, case["svc"], repr(case["name"]), case.get("name_type"), case["pa"], case["chan"], len(expected)))
         ctx.sample({"kind": kind, "svc": case["svc"], "queued": len(got),
                     "first": repr(describe(got[0]))[:120] if got else None})
     finally:
